@@ -51,6 +51,8 @@ pub struct RunTrace {
     /// the point from which starts count as "after the signal": the signal's own
     /// position, or the end of the poll inside which it landed
     pub interrupt_effective: Vec<usize>,
+    /// the first delivered signal came at a point where closure calls count hand-outs
+    pub first_interrupt_exact: bool,
     pub ret: Option<(usize, OutcomeRec)>,
     pub stream_end: Option<usize>,
     pub stream_drop: Option<usize>,
@@ -130,7 +132,10 @@ pub fn digest(events: &[Ev], run: usize, n: usize) -> RunTrace {
                 t.gate_dropped.push((seq, *id));
                 inflight = inflight.saturating_sub(1);
             }
-            Ev::Interrupt { run: r, delivered: true } if *r == run => {
+            Ev::Interrupt { run: r, delivered: true, exact } if *r == run => {
+                if t.interrupt_delivered.is_empty() {
+                    t.first_interrupt_exact = *exact;
+                }
                 t.interrupt_delivered.push(seq);
                 if in_poll {
                     // a signal landing inside a poll is ordered after that poll's decisions
@@ -707,7 +712,7 @@ pub fn check_c08(_case: &CaseSpec, _built: &Built, t: &RunTrace, rs: &RunSpec) -
         Strategy::PollNextN(n) => n as usize,
         _ => unreachable!(),
     };
-    if after.len() > bound {
+    if t.first_interrupt_exact && after.len() > bound {
         return Some(v(
             Prop::C08,
             "too-many-after-signal",
